@@ -3,7 +3,7 @@
 # Works in N scratch worktrees of /repo's HEAD (outside /repo and /verif; removed at the end), so /repo itself is
 # never patched and the registered checks may run meanwhile.   usage: matrix.sh [glob] [workers]
 PAT="${1:-*}"; N="${2:-8}"
-ALL="C01 C02 C03 C04 C05 C06 C07 C08 C09 C10 C11 C12 C13 C14 C15 C16 C17 C18 C19"
+ALL="${CHECKS:-C01 C02 C03 C04 C05 C06 C07 C08 C09 C10 C11 C12 C13 C14 C15 C16 C17 C18 C19}"
 MX=/tmp/plvmx; OUT=/verif/seeded/MATRIX.tsv
 rm -rf $MX; mkdir -p $MX; git -C /repo worktree prune
 ids=(); for d in /verif/seeded/*/ ; do id=$(basename $d); [ -f $d/patch.diff ] && [[ "$id" == $PAT ]] && ids+=("$id"); done
